@@ -339,7 +339,22 @@ void exec_history(Kind kind, const std::vector<uint8_t>& fullv, uint64_t a, uint
 	c.r = rd.get();
 	if (tracing) c.trace = std::string(kind_name[kind]) + "[len " + std::to_string(c.window.size()) + "]:";
 	sync_check(c, "initial");
-	for (auto& op : ops) step(c, op);
+	// one history in four continues, from its middle, on a COPY of the reader (a copied memory reader / file slice is a reader of the same kind
+	// over the same bytes): where the copy starts is read from the copy itself, everything after that follows the model again
+	size_t forkAt = (ops.size() >= 4 && ((ops[0].raw >> 13) & 3) == 0) ? ops.size() / 2 : ~size_t(0);
+	std::unique_ptr<Stream::BidirectionalReader> cp;
+	for (size_t k = 0; k < ops.size(); ++k) {
+		if (k == forkAt) {
+			if (kind == KMem || kind == KMemSlice || kind == KMemSliceSlice) cp = std::make_unique<Stream::MemoryReader>(*static_cast<Stream::MemoryReader*>(rd.get()));
+			else cp = std::make_unique<Stream::FileSliceReader>(*static_cast<Stream::FileSliceReader*>(rd.get()));
+			if ((ops[0].raw >> 15) & 1) rd.reset();   // the original may be gone by the time the copy is used
+			c.r = cp.get(); c.cur = c.r->Position();
+			V_CHECK(c.cur <= c.window.size() && c.r->Length() == c.window.size(), "copy of a reader: Position() " << c.cur << " Length() " << c.r->Length() << " for a window of " << c.window.size() << "; trace=" << c.trace);
+			if (tracing) c.trace += "copy@" + std::to_string(c.cur) + ";";
+			st.cls("history_continues_on_a_copy");
+		}
+		step(c, ops[k]);
+	}
 	// closing probe: everything left must still be readable and correct ("later behaviour unchanged")
 	{
 		uint64_t rem = c.window.size() - c.cur;
